@@ -4,7 +4,7 @@ Domain: the structured byte space of vlib/x86space.py (with and without 0x66 / 0
 disassembler accepts and whose mnemonic is in the lifter's dispatch table (or uses the MMX fallback).
 Oracle: vlib/irtype.py, an independent well-formedness checker; lifting must not raise.
 """
-import sys
+import sys, re
 from vlib import runner, x86space, irtype
 from checks.c01_decode import split_prefixes
 
@@ -41,6 +41,31 @@ def opcode_of(b, l):
     groups = ("80", "81", "82", "83", "8f", "c0", "c1", "c6", "c7", "d0", "d1", "d2", "d3", "f6", "f7", "fe", "ff", "0f00", "0f01", "0fba", "0fc7", "0f71", "0f72", "0f73", "0fae",
               "d8", "d9", "da", "db", "dc", "dd", "de", "df")
     return k[1] + (k[2] if k[1] in groups else "")
+
+
+PARENT = {}
+for _r in "abcd":
+    for _n in (_r + "l", _r + "h", _r + "x", "e" + _r + "x"):
+        PARENT[_n] = "e" + _r + "x"
+for _r in ("si", "di", "sp", "bp"):
+    PARENT[_r] = PARENT["e" + _r] = "e" + _r
+for _r in ("es", "cs", "ss", "ds", "fs", "gs"):
+    PARENT[_r] = _r
+
+
+def operand_registers(t):
+    """names (as the lifter spells destinations) of the registers written out in the rendered instruction: a finding about one of them
+    is a finding about 'the operand', whichever register the instance happens to use; a finding about any other location (a flag, an
+    implicit register) keeps the location's name in its signature"""
+    out = set()
+    for tok in re.findall(r"[a-z]+[0-9]*(?:\([0-7]\))?", t.split(" ", 1)[1] if " " in t else ""):
+        if tok in PARENT:
+            out.add(PARENT[tok])
+        elif re.match(r"^(x?mm[0-7]|[cd]r[0-7])$", tok):
+            out.add(tok)
+        elif re.match(r"^st(\([0-7]\)|[0-7])?$", tok):
+            out.add("float_st%s" % (re.sub(r"[^0-7]", "", tok) or "0"))
+    return out
 
 
 def text(i):
@@ -80,7 +105,9 @@ def judge(b, st=None):
     probs = irtype.check_list(ex, st)
     if probs:
         seen, out = set(), []
+        opregs = operand_registers(text(i))
         for k, d in probs:
+            k = ":".join("operand" if (j > 0 and part in opregs) else part for j, part in enumerate(k.split(":")))
             if k not in seen:
                 seen.add(k)
                 out.append(((k, name, ("o16" if mode.startswith("o16") else "") + ("a16" if mode.endswith("a16") else ""), opcode_of(b, i.l)), "%s (%s): %s" % (b[:i.l].hex(), text(i), d)))
